@@ -854,7 +854,7 @@ fn run_inner(op: &str, a: &Args) -> Option<Args> {
                 rows
             };
             if rows.num_rows() != n { return Some(err(E_INVALID)); }
-            (0..n).map(|i| gbytes(if in_slice(i) { sliced.as_ref().unwrap().row(i - b.bk).as_ref() } else { rows.row(i).as_ref() })).collect()
+            (0..n).map(|i| { let row = if in_slice(i) { sliced.as_ref().unwrap().row(i - b.bk) } else { rows.row(i) }; gbytes(row.data()) }).collect()
         }
         "c11.cmp" => {
             // two independent conversions by the same converter; every pair of rows across both
